@@ -93,6 +93,14 @@ func critical(ctx context.Context, st *GState, what string) {
 		if !known {
 			env.SeenAll[gp] = append(env.SeenAll[gp], st)
 		}
+		if ci := callOf(ctx); ci > 0 {
+			if env.SeenCall == nil {
+				env.SeenCall = map[*GState]int{}
+			}
+			if ci > env.SeenCall[st] {
+				env.SeenCall[st] = ci
+			}
+		}
 		env.seenSeq++
 		if env.SeenSeq == nil {
 			env.SeenSeq = map[string]int{}
